@@ -14,6 +14,10 @@
       since /repo bd6cd41 a cause WITHOUT an old state (`cause.old is None`: a creation) is tried on
       `[new]` only, unless the handler is an update handler (`field_needs_change`: on.update/on.field,
       for which "absent before, present now" stays a match);
+    * "the field actually changed" (`field_needs_change`) is decided as the diff decides it since /repo
+      8d1358b: by identity when the private absent marker is on a side, else
+      `bool(diffs.diff(old, new)) or old != new` (`fieldChanged`; `PyVal.same` = `diffs._same`: a boolean
+      never equals a number); before, Python's `!=` alone (`fieldChangedBefore`);
     * field callbacks receive Python `None` for an absent field (since /repo 07968cf; before, the
       private `_UNSET.token`), i.e. an absent field and a present `null` look the same to them,
       label/annotation callbacks receive Python `None` (here: `none : Option String`);
@@ -24,18 +28,51 @@ import Kopf.Base.J
 import Kopf.Model.C05_Cause
 namespace Kopf.C15
 
-/-- Python values a field can hold: Python `==` and Python `None`. -/
+mutual
+  /-- `diffs._same` (kopf 6b2e53c): equality as JSON values -- as Python `==` on parsed JSON (dicts as
+      unordered maps, lists item by item), but a boolean never equals a number (`True == 1` in Python). -/
+  def jsame : J → J → Bool
+    | .null, .null => true
+    | .bool a, .bool b => a == b
+    | .num a, .num b => a == b
+    | .str a, .str b => a == b
+    | .arr a, .arr b => jsameList a b
+    | .obj a, .obj b => a.length == b.length && jsameSub a b
+    | _, _ => false
+  def jsameList : List J → List J → Bool
+    | [], [] => true
+    | x :: xs, y :: ys => jsame x y && jsameList xs ys
+    | _, _ => false
+  /-- every binding of `a` has a `jsame` binding in `b` (with equal lengths and unique keys: equal dicts) -/
+  def jsameSub : List (String × J) → List (String × J) → Bool
+    | [], _ => true
+    | (k, x) :: xs, b =>
+        (match J.lookup k b with
+         | some y => jsame x y
+         | none => false) && jsameSub xs b
+end
+
+/-- Python values a field can hold: Python `==`, equality as JSON values (`diffs._same`: what an empty
+    `diffs.diff(a, b)` means for two values), and Python `None`. -/
 class PyVal (V : Type) where
   eq : V → V → Bool
+  same : V → V → Bool
   null : V
 
-instance : PyVal J := ⟨J.pyEq, J.null⟩
+instance : PyVal J := ⟨J.pyEq, jsame, J.null⟩
 
 /-- Python `a == b` on *resolved* field values; `none` is the private `_UNSET.token`
     (an `enum` member: equal only to itself). -/
 def reseq {V} [PyVal V] : Option V → Option V → Bool
   | none, none => true
   | some a, some b => PyVal.eq a b
+  | _, _ => false
+
+/-- `not diffs.diff(a, b)` on *resolved* field values that are both present; with the private token on a
+    side the code compares by identity (`old is not new`): the token is only itself. -/
+def ressame {V} [PyVal V] : Option V → Option V → Bool
+  | none, none => true
+  | some a, some b => PyVal.same a b
   | _, _ => false
 
 /-- A label/annotation criterion (`filters.MetaFilter` value). -/
@@ -290,9 +327,32 @@ def sideAtoms {V} [PyVal V] (crit : VCrit V) (x : Option V) : SideAtoms :=
   { isNone := crit.isUnset, isAbsent := crit.isAbsent, isPresent := crit.isPresent,
     callable := crit.isCallable, absentV := x.isNone, cb := crit.call x, eq := crit.pyEq x }
 
+/-- `changed = (old is not new) if (old is absent or new is absent) else bool(diffs.diff(old, new)) or old != new`
+    (/repo 8d1358b: "the values are compared the same way as for the diffs: a boolean never equals a
+    number"; before it: `old != new` alone, Python's `!=`) -/
+structure ChangedAtoms where
+  oldAbsent : Bool     -- old is absent
+  newAbsent : Bool     -- new is absent
+  identical : Bool     -- old is new   (looked at only with the token on a side: true iff both are the token)
+  diffNonEmpty : Bool  -- bool(diffs.diff(old, new))   (looked at only with two present values)
+  pyNe : Bool          -- old != new
+
+def changedCore (a : ChangedAtoms) : Bool :=
+  if a.oldAbsent || a.newAbsent then !a.identical else (a.diffNonEmpty || a.pyNe)
+
+def changedAtoms {V} [PyVal V] (o n : Option V) : ChangedAtoms :=
+  { oldAbsent := o.isNone, newAbsent := n.isNone, identical := o.isNone && n.isNone,
+    diffNonEmpty := !ressame o n, pyNe := !reseq o n }
+
+/-- "the field actually changed", as the code decides it since /repo 8d1358b -/
+def fieldChanged {V} [PyVal V] (o n : Option V) : Bool := changedCore (changedAtoms o n)
+
+/-- … and as it decided it before (Python's `!=` on the resolved values): kept for the regression theorem -/
+def fieldChangedBefore {V} [PyVal V] (o n : Option V) : Bool := !reseq o n
+
 structure ChangeAtoms where
   needsChange : Bool   -- handler.field_needs_change
-  changed : Bool       -- old != new
+  changed : Bool       -- changed
 
 def changeCore (a : ChangeAtoms) : Bool := !a.needsChange || a.changed
 
@@ -314,7 +374,7 @@ def matchesFieldChanges {V} [PyVal V] (h : Handler V) (c : Cause V) : Bool :=
   let o := c.old (path h)
   let n := c.new (path h)
   fcCore { hChanging := h.changing, cChanging := c.changing, hasField := hasField h
-           changeOk := changeCore { needsChange := h.fieldNeedsChange, changed := !reseq o n }
+           changeOk := changeCore { needsChange := h.fieldNeedsChange, changed := fieldChanged o n }
            oldOk := sideCore (sideAtoms h.old o)
            newOk := sideCore (sideAtoms h.new n) }
 
